@@ -421,6 +421,7 @@ var specC05 = vstat.Spec[c05Case]{
 	Gen:         genC05,
 	Check:       checkC05,
 	Inflight:    true,
+	Confirm:     true,
 }
 
 var specC03Dial = vstat.Spec[c05Case]{
@@ -431,6 +432,7 @@ var specC03Dial = vstat.Spec[c05Case]{
 	Gen:         genC05,
 	Check:       checkC03Dial,
 	Inflight:    true,
+	Confirm:     true,
 }
 
 func TestC03Dial(t *testing.T)       { vstat.Check(t, specC03Dial) }
